@@ -91,11 +91,14 @@ def run(rep, tier, seed):
             groups = {}
             for x in recs:
                 groups.setdefault((x["res"], x["passes"] > 0, interp.doc_size(x["doc"])), []).append(x)
-            share = max(1, 2500 // len(groups))
-            recs = []
+            share = max(1, 1000 // len(groups))
+            picked, rest = [], []
             for g in groups.values():
                 rnd.shuffle(g)
-                recs += g[:share]
+                picked += g[:share]
+                rest += g[share:]
+            rnd.shuffle(rest)
+            recs = picked + rest[:max(0, 2500 - len(picked))]
         classes = {}
         for x in r.replay:
             classes[x["res"]] = classes.get(x["res"], 0) + 1
